@@ -129,11 +129,19 @@ theorem for_each_flags :
     Gen.ForEach.forEachRepeat = forEachRepeat ∧ Gen.ForEach.forEachRecalculates = forEachRecalculates := by
   decide
 
-/-- evaluate: set the recalculating flag, *then* render (so a new iterator is built), check the
-    type, switch repetition off, return that object -/
+/-- fix a90df5d: the recalculating flag is saved before it is switched on and put back in a
+    `finally` right after the for_each expression has been rendered — the pinned fact that makes
+    `consumeAt` independent of the placement (`Props.C17.site_kth_every_placement`).  On the
+    code before the fix the pin is `false` and this lemma fails. -/
+theorem for_each_flag_restored : Gen.ForEach.forEachFlagRestored = forEachFlagRestored := by decide
+
+/-- evaluate: save the flag, set it, render inside `try` (so a new iterator is built for the
+    for_each itself), restore the flag in `finally`, check the type, switch repetition off,
+    return that object -/
 theorem for_each_evaluate :
-    Gen.ForEach.evaluateSkeleton = ["Assign", "Assign", "If", "Assign", "Return"]
-    ∧ Gen.ForEach.evaluateAssignOrder = ["context.recalculate_every_time", "ret", "ret.repeat"]
+    Gen.ForEach.evaluateSkeleton = ["Assign", "Assign", "Try", "If", "Assign", "Return"]
+    ∧ Gen.ForEach.evaluateAssignOrder =
+        ["previous", "context.recalculate_every_time", "ret", "context.recalculate_every_time", "ret.repeat"]
     ∧ Gen.ForEach.evaluateRet = "self.expression.render(context)"
     ∧ Gen.ForEach.evaluateTypeCheck = ["not isinstance(ret, PluginResultIterator)"]
     ∧ Gen.ForEach.evaluateReturn = ["return ret"] := by decide
